@@ -3,7 +3,7 @@ _init_size three-way relation, set_best_sizes assembly and cap (C02.R2-R5, C06, 
 import ast
 
 from ..model import dotted, src, calls_in, kw, AnalysisError
-from ..common import (fpaths, peel, actual, mkterm, mkbool, guard_assignment, same_expr, const_str, status_key)
+from ..common import (fpaths, peel, actual, mkterm, mkbool, guard_assignment, same_expr, const_str, status_key, effective_owners)
 from ..terms import Term, exp2, ite, NotATerm, witness, tmin, tmax
 from ..paths import outcomes
 from .. import anchors as A
@@ -84,8 +84,9 @@ def resize_rules(ck, rules):
                 bad(rules["nint"], "resize recomputes n_int on every path", "normal path without a store to n_int", f.node)
             else:
                 try:
-                    t = _T(st.value, BOOLS)
-                    o = nw - nf - sg
+                    asg_n = guard_assignment(pf.guards, rename=IDENT)
+                    t = _T(st.value, BOOLS).subst(asg_n)
+                    o = (nw - nf - sg).subst(asg_n)
                     ck.saw(terms=1)
                     if t != o:
                         bad(rules["nint"], "n_int = n_word - n_frac - sign bit (of the format in force when resize returns)",
@@ -286,8 +287,9 @@ def fields_written_only_in_resize(ck, rule):
                 tg = [n.target]
             for t in tg:
                 for tt in (t.elts if isinstance(t, (ast.Tuple, ast.List)) else [t]):
+                    owners = effective_owners(prog, f)
                     if isinstance(tt, ast.Attribute) and tt.attr in derived:
-                        if f.qualname == "objects.Fxp.resize":
+                        if owners == {"objects.Fxp.resize"}:
                             continue
                         if f.qualname == "objects.Fxp.__init__" and isinstance(n, ast.Assign) and isinstance(n.value, ast.Constant) and n.value.value is None:
                             continue
@@ -295,7 +297,7 @@ def fields_written_only_in_resize(ck, rule):
                                "metadata written outside resize is not re-derived from the format")
                     if isinstance(tt, ast.Attribute) and tt.attr in fmt and f.cls == "Fxp" or \
                             isinstance(tt, ast.Attribute) and tt.attr in fmt and dotted(tt.value) not in (None, "self") and f.module == "functions":
-                        if f.qualname in allowed_fmt_writers:
+                        if owners <= set(allowed_fmt_writers):
                             continue
                         ck.bad(rule, f, "format fields are changed only through resize", "%s writes %s" % (f.qualname, src(tt)), n,
                                "n_int/limits/dtype are not refreshed and the stored codes are not re-quantized")
